@@ -17,6 +17,8 @@ class S:
         self.line = {}
 
     def __getattr__(self, n):
+        if n in ("k", "a", "line"):      # unset slot (e.g. while unpickling): not an attribute of `a`
+            raise AttributeError(n)
         try:
             return self.a[n]
         except KeyError:
